@@ -299,8 +299,52 @@ func (c *SpecCtx) ident(name string) Val {
 			}
 		}
 	}
+	// a closure's contract may mention a variable of the enclosing function that
+	// the closure does not (or no longer) capture: nothing is known about it,
+	// so it stands for an arbitrary value of its type
+	if x.root != nil && x.root.Parent() != nil {
+		if v, ok := x.enclosingVar(c.st, x.root.Parent(), name); ok {
+			return v
+		}
+	}
 	sfail("unknown identifier %s", name)
 	return Val{}
+}
+
+// enclosingVar: an unconstrained value for a named local of an enclosing function.
+func (x *Exec) enclosingVar(st *State, parent *ssa.Function, name string) (Val, bool) {
+	if x.enclosing == nil {
+		x.enclosing = map[string]Val{}
+	}
+	if v, ok := x.enclosing[name]; ok {
+		return v, true
+	}
+	for p := parent; p != nil; p = p.Parent() {
+		for _, prm := range p.Params {
+			if prm.Name() == name {
+				v := x.fresh(st, prm.Type(), "enc_"+name)
+				x.enclosing[name] = v
+				return v, true
+			}
+		}
+		for _, l := range p.Locals {
+			if l.Comment == name {
+				v := x.fresh(st, elemOfPtr(l.Type()), "enc_"+name)
+				x.enclosing[name] = v
+				return v, true
+			}
+		}
+		for _, b := range p.Blocks {
+			for _, in := range b.Instrs {
+				if a, ok := in.(*ssa.Alloc); ok && a.Comment == name {
+					v := x.fresh(st, elemOfPtr(a.Type()), "enc_"+name)
+					x.enclosing[name] = v
+					return v, true
+				}
+			}
+		}
+	}
+	return Val{}, false
 }
 
 func (c *SpecCtx) localVar(name string) (Val, bool) {
@@ -469,6 +513,7 @@ func (c *SpecCtx) bin(e *SBin) Val {
 			if op == "" {
 				sfail("%% on floats")
 			}
+			x.faCount++
 			return specVal("("+op+" RNE "+l.S+" "+r.S+")", fpSort)
 		}
 	}
